@@ -15,7 +15,7 @@ PROPS = {
     },
     "C02": {
         "units": ["l1_error_api", "c05_accumulator"],
-        "gen": [{"corpus": "structs", "mode": "err", "unit_span": True}],
+        "gen": [{"corpus": "structs", "mode": "err", "unit_span": True}, {"corpus": "enums", "mode": "full", "unit_span": True}],
         "classes": r"postcondition|invariant|post-condition of closure",
         "level_text": "Same emitted functions proved equal to the full oracle: Err(e_multiple(mistakes)) with one error per unknown name, repeat, literal item, "
                       "failed conversion (located at name / name[i]), flatten failure and missing field, in order; Ok iff none. Span identity is abstracted (single-valued Span) so only C03 sees which span.",
@@ -25,7 +25,7 @@ PROPS = {
     },
     "C03": {
         "units": ["l1_error_api"],
-        "gen": [{"corpus": "structs", "mode": "full"}],
+        "gen": [{"corpus": "structs", "mode": "full"}, {"corpus": "enums", "mode": "full"}],
         "classes": r"postcondition|invariant|post-condition of closure",
         "level_text": "with_span is proved first-writer-wins on the real body (r == e_with_span(self, span(node))); the emitted parsers are proved equal to an oracle in which "
                       "every unknown/duplicate/literal/conversion error carries the span of the offending item itself and missing-field errors none, with Span opaque (so attaching another node's span fails).",
@@ -34,9 +34,59 @@ PROPS = {
         "assumptions": "L3",
         "not_covered": ["Error::into_vec span hand-down (F5)", "FromMeta default methods' span attachment", "enum receivers' spans (F7)"],
     },
+    "C09": {
+        "units": [],
+        "gen": [{"corpus": "enums", "mode": "full"}],
+        "classes": r"postcondition|invariant|post-condition of closure",
+        "level_text": "For each enum receiver of the corpus the from_list / from_string / from_word emitted by the working tree's derive are proved (Verus, all inputs) equal to an oracle "
+                      "written from the statement: 0 items -> too_few(1), >1 -> too_many(1), one item -> dispatch on the effective variant name (rename, else case rule, snake_case by default): "
+                      "unit variant only as a bare path, newtype delegated to the inner type with errors located under the name, struct variant parsed as a struct receiver "
+                      "(same field oracle as C01/C02) located under the name; skipped variants have no arm; everything else is an error, never a chosen variant.",
+        "level_note": "Proof per program; programs sampled (corpus of enum descriptors). Trusted: client-view FromMeta for inner types, parse_meta_list uninterpreted, rewrite rules incl. R13b/R5b/R7b.",
+        "design_ref": "DESIGN.md section 6 C09",
+        "assumptions": "L3",
+        "not_covered": ["container-level from_word / from_none options", "L2 InputVariant::with_inherited separately contracted (exercised through emitted code only)"],
+    },
+    "C17": {
+        "units": [],
+        "gen": [{"corpus": "structs", "mode": "full"}, {"corpus": "enums", "mode": "full"}],
+        "classes": r"assertion failed|post-condition of closure",
+        "include_text": r"strs\(__alts@\)|e_sibling_alts",
+        "level_text": "In every emitted parser of the corpus the literal candidate list passed to unknown_field_with_alts is proved equal to the names addressable at that position "
+                      "(non-skip, non-flatten fields; non-skipped variants), and the names passed to add_sibling_alts_for_unknown_field on a flatten result are the parent's addressable names; "
+                      "suggestions are attached only by those two calls (oracle equality under C02/C03).",
+        "level_note": "Proof per program; programs sampled. The scorer (did_you_mean / add_alts, f64) is outside Verus: planned Kani units; dym_spec is uninterpreted here.",
+        "design_ref": "DESIGN.md section 6 C17",
+        "assumptions": "L3",
+        "not_covered": ["did_you_mean threshold / best-match (f64: Kani unit pending)", "ErrorUnknownField::add_alts strict-improvement (Kani unit pending)", "feature `suggestions` off"],
+    },
+    "C18": {
+        "units": ["c18_shape"],
+        "level_text": "Every function of core/src/util/shape.rs (ShapeSet::{new, from_iter, insert, insert_all, is_empty, contains_shape, contains, check, to_vec}, "
+                      "Display for ShapeSet/Shape, Shape::description, the seven AsShape impls) and Error::unsupported_shape_with_expected are proved on their real bodies "
+                      "against an oracle written from the statement: accepts(set, s) = some declared word admits s, where a word admits its own shape and `tuple` also admits Newtype. "
+                      "contains/contains_shape return exactly accepts; insert changes exactly the flag of its word; check is Ok iff accepts and otherwise equals the "
+                      "unsupported-shape error; to_vec is a duplicate-free list of <= 3 declared words with the same acceptance; the unreachable!() in Display is proved unreachable. "
+                      "A proved client probe shows the generated per-variant loop yields one error per non-conforming variant.",
+        "level_note": "Proof for all sets/shapes/containers. Trusted: reduced syn mirrors (Punctuated::len is a pure count), IntoIterator yield sequence, derive(Default) = all false, "
+                      "Display text (R11), Error/Accumulator contracts proved in l1_error_api / c05_accumulator.",
+        "design_ref": "DESIGN.md section 6 C18",
+        "assumptions": [
+            "syn::{Fields, FieldsNamed, FieldsUnnamed, DataStruct, Variant} are reduced mirrors with syn's variant/field names; Punctuated is opaque and len() returns an uninterpreted count (prelude/shape_syn.vrs)",
+            "R2: `items.into_iter().collect()` -> ShapeSet::from_iter(items); `for shape in iter.into_iter()` -> loop over shapes_of(iter), the uninterpreted yield sequence",
+            "#[derive(Default)] for ShapeSet yields four false flags (external_body default()); derive(Clone, Copy) re-attached to Shape and ast::Style",
+            "R11: write!(f, ..) -> fmt_args!(f, ..) opaque sink (argument expressions stay verified); the rendered text of ShapeSet/Shape is display_spec(value), uninterpreted",
+            "R15: Display::fmt and FromIterator::from_iter are verified as inherent functions; AsShape impls are verified as real trait impls",
+            "description texts are checked against the literals of Shape's rustdoc; the property only uses their pairwise distinctness (lemma_desc_injective)",
+        ],
+        "not_covered": [
+            "generated __validate_body / from_variant supports check for declared word subsets (L3 unit pending; struct-vs-enum-only words, union F3, word parsing F9)",
+            "the message text rendered by Display for ShapeSet (only panic-freedom is proved)",
+        ],
+    },
     "C07": {
         "units": [],
-        "gen": [{"corpus": "structs", "mode": "full"}],
+        "gen": [{"corpus": "structs", "mode": "full"}, {"corpus": "enums", "mode": "full"}],
         "classes": r"precondition not satisfied|overflow|underflow|division by zero|index out of|unreachable|panic",
         "level_text": "Every expect()/unwrap/index/arithmetic site and every accumulator-armed precondition in the emitted parsers is a proved Verus precondition for all inputs "
                       "(e.g. Option::expect requires Some; finish requires armed).",
